@@ -71,7 +71,7 @@ theorem goDown_spec {n : Node} (g : C22.Good n) (dn : Down) :
 file: after `Open` the node serves exactly the database it had applied, its snapshot
 store holds ONE new snapshot of that database at the last index, the log has been deleted
 (everything it held is inside that snapshot), and the peers file has been consumed. -/
-theorem recover_keeps_applied (hist : List C22.Op) (dn : Down) (peers : Config) :
+theorem recover_keeps_applied (hist : List C22.Op) (dn : Down) (peers : Config) (hv : checkConfig peers = true) :
     let n := C22.run {} hist
     let r := openNode { goDown n dn with peersFile := some peers }
     r.live = n.live ∧
@@ -83,30 +83,56 @@ theorem recover_keeps_applied (hist : List C22.Op) (dn : Down) (peers : Config) 
   obtain ⟨hd, ht, hh, _⟩ := goDown_spec g dn
   have hd' : DurInv { goDown n dn with peersFile := some peers } := ⟨hd.snap_le, hd.nosnap, hd.fp_ok⟩
   have ht' : truth { goDown n dn with peersFile := some peers } = n.live := ht
-  obtain ⟨a, b, c, _, e, f, gq, _, i⟩ := open_recover_truth hd' peers rfl
+  obtain ⟨a, b, c, _, e, f, gq, _, i⟩ := open_recover_truth hd' peers rfl hv
   refine ⟨by rw [a, ht'], ?_, ?_, ?_, e, f, gq⟩
   · rw [b, ht']; show some ((goDown n dn).hist.length, n.live) = _; rw [hh]
   · rw [c]; show (goDown n dn).hist.length = _; rw [hh]
   · rw [i]; exact hh
 
-/-- **recover_config_is_peers_file**: the node starts with exactly the configuration in
-the peers file, whatever configuration it had before -/
-theorem recover_config_is_peers_file (hist : List C22.Op) (dn : Down) (peers : Config) :
+/-- **recover_config_is_peers_file**: for EVERY peers file that passes `checkRaftConfiguration`
+— voters and non-voters in any number and in any position — the node starts with exactly the
+file's configuration: the same entries (id, address, suffrage) in the same order, whatever
+configuration it had before. (The validation is a pure test: it cannot change what is installed.) -/
+theorem recover_config_is_peers_file (hist : List C22.Op) (dn : Down) (peers : Config) (hv : checkConfig peers = true) :
     (openNode { goDown (C22.run {} hist) dn with peersFile := some peers }).config = peers := by
   have g := C22.good_run C22.good_init hist
   obtain ⟨hd, _, _, _⟩ := goDown_spec g dn
   have hd' : DurInv { goDown (C22.run {} hist) dn with peersFile := some peers } := ⟨hd.snap_le, hd.nosnap, hd.fp_ok⟩
-  exact (open_recover_truth hd' peers rfl).2.2.2.1
+  exact (open_recover_truth hd' peers rfl hv).2.2.2.1
+
+/-- **invalid_peers_file_rejected**: a peers file that fails the validation (empty or duplicate id
+or address, no voter) makes `Open` fail: the node stays down, the file stays, the configuration
+and everything the durable state stands for are untouched; once the file is removed the node
+opens with all its data. -/
+theorem invalid_peers_file_rejected (hist : List C22.Op) (dn : Down) (peers : Config) (hv : checkConfig peers = false) :
+    let n := C22.run {} hist
+    let f := openNode { goDown n dn with peersFile := some peers }
+    f.up = false ∧ f.peersFile = some peers ∧ f.config = (goDown n dn).config ∧
+    (openNode { f with peersFile := none }).live = n.live := by
+  intro n f
+  have g := C22.good_run C22.good_init hist
+  obtain ⟨hd, ht, _, _⟩ := goDown_spec g dn
+  have hd' : DurInv { goDown n dn with peersFile := some peers } := ⟨hd.snap_le, hd.nosnap, hd.fp_ok⟩
+  obtain ⟨e, hdf, htf⟩ := open_invalid_peers hd' peers rfl hv
+  have hup : (goDown n dn).up = false := by cases dn <;> rfl
+  have hf : f = { goDown n dn with peersFile := some peers, fp := false } := e
+  refine ⟨by rw [hf]; exact hup, by rw [hf], by rw [hf], ?_⟩
+  have hd2 : DurInv { f with peersFile := none } := by
+    rw [hf]; exact ⟨hd.snap_le, hd.nosnap, fun hx => by cases hx⟩
+  rw [(open_truth hd2 rfl).1]
+  show truth f = n.live
+  rw [hf]; exact ht
 
 /-- recovery never reuses the database file: even with a matching fingerprint the start-up
 after `RecoverNode` restores from the snapshot it created (`openNode` has no fast-path
 branch under a peers file), and the recovered node keeps everything through later
 operations and restarts -/
-theorem recovered_node_continues (hist : List C22.Op) (dn : Down) (peers : Config) (later : List C22.Op) :
+theorem recovered_node_continues (hist : List C22.Op) (dn : Down) (peers : Config) (hv : checkConfig peers = true)
+    (later : List C22.Op) :
     let r := openNode { goDown (C22.run {} hist) dn with peersFile := some peers }
     (C22.run r later).live = later.foldl C22.effect (C22.run {} hist).live := by
   intro r
-  obtain ⟨hl, _, _, _, _, g⟩ := recover_keeps_applied hist dn peers
+  obtain ⟨hl, _, _, _, _, g⟩ := recover_keeps_applied hist dn peers hv
   rw [C22.live_run g, hl]
 
 /-! ### regenerated facts: `recoverNode` and `Open` have the shape the model gives them -/
@@ -137,9 +163,13 @@ def exHist : List C22.Op :=
 example : (goDown (C22.run {} exHist) .crash).fp = true ∧
           (goDown (C22.run {} exHist) .crash).dbFile = [(1, 10)] := by decide
 
-example : (openNode { goDown (C22.run {} exHist) .crash with peersFile := some [("n1", "h:1")] }).live
+def exPeers : Config := [⟨"obs", "h:9", false⟩, ⟨"n1", "h:1", true⟩, ⟨"n2", "h:2", true⟩]   -- a non-voter FIRST
+
+example : checkConfig exPeers = true ∧ checkConfig [⟨"n1", "h:1", false⟩] = false ∧
+          checkConfig [⟨"n1", "h:1", true⟩, ⟨"n1", "h:2", true⟩] = false := by decide
+
+example : (openNode { goDown (C22.run {} exHist) .crash with peersFile := some exPeers }).live
             = [(1, 15), (2, 7)] ∧
-          (openNode { goDown (C22.run {} exHist) .crash with peersFile := some [("n1", "h:1")] }).config
-            = [("n1", "h:1")] := by decide
+          (openNode { goDown (C22.run {} exHist) .crash with peersFile := some exPeers }).config = exPeers := by decide
 
 end C33
